@@ -1,8 +1,213 @@
 import CM.Lib.Wire
-/-! Driver handler for C10 (stub: not built yet). -/
-namespace CM.Drv.C10
-open CM.Wire
+import CM.Model.FileTree
+/-!
+Driver handler for C10.
 
-def handle (_args _impl : List String) : String := bad
+`kv <op>* => <out>*` — one whole history of `FileStorage` operations per line. Components
+and values are small naturals (the harness keeps the tables of real names / byte strings;
+value `n` is a byte string of length `n`). Operations:
+
+    S:<key>:<n>  Store      L:<key>  Load      D:<key>  Delete     E:<key>  Exists
+    T:<key>      Stat       Ln:<key> List      Lr:<key> List recursive
+    key = components joined by '/', the root prefix is `-`
+
+Outputs (one token per operation): `ok` `err` `notexist` `v<n>` `corrupt` `t` `f` `f<n>`
+(file of size n) `d` (directory) `k[<key>,<key>…]` (sorted listing).
+
+The *model* is `CM.FileTree` (the POSIX tree with lingering directories); the *spec* is the
+`Storage` contract `CM.KV`, evaluated on a contract state that is advanced by what the
+implementation reported, and judging only where the contract is definite (see `judge`).
+-/
+namespace CM.Drv.C10
+open CM.Wire CM.KV CM.FileTree
+
+abbrev K := Key Nat
+
+inductive Op where
+  | store (k : K) (v : Nat) | load (k : K) | delete (k : K) | «exists» (k : K)
+  | stat (k : K) | list (k : K) (r : Bool)
+
+inductive Out where
+  | ok | err | notexist | val (n : Nat) | corrupt | t | f | file (n : Nat) | dir | keys (l : List K)
+  deriving DecidableEq
+
+def decKey (s : String) : Option K :=
+  if s = "-" then some [] else
+  (s.splitOn "/").foldr (fun p acc => match p.toNat?, acc with
+    | some n, some l => some (n :: l)
+    | _, _ => none) (some [])
+
+def encKey (k : K) : String :=
+  if k = [] then "-" else String.intercalate "/" (k.map toString)
+
+def decOp (s : String) : Option Op :=
+  match s.splitOn ":" with
+  | ["S", k, v] => match decKey k, v.toNat? with
+    | some k, some v => some (.store k v)
+    | _, _ => none
+  | ["L", k] => (decKey k).map .load
+  | ["D", k] => (decKey k).map .delete
+  | ["E", k] => (decKey k).map .exists
+  | ["T", k] => (decKey k).map .stat
+  | ["Ln", k] => (decKey k).map (.list · false)
+  | ["Lr", k] => (decKey k).map (.list · true)
+  | _ => none
+
+def keyLe : K → K → Bool
+  | [], _ => true
+  | _ :: _, [] => false
+  | a :: as, b :: bs => if a < b then true else if b < a then false else keyLe as bs
+
+def canon (l : List K) : List K := (l.mergeSort keyLe).eraseDups
+
+def encOut : Out → String
+  | .ok => "ok" | .err => "err" | .notexist => "notexist" | .val n => "v" ++ toString n
+  | .corrupt => "corrupt" | .t => "t" | .f => "f" | .file n => "f" ++ toString n | .dir => "d"
+  | .keys l => "k[" ++ String.intercalate "," (l.map encKey) ++ "]"
+
+def decOut (s : String) : Option Out :=
+  if s = "ok" then some .ok else if s = "err" then some .err else if s = "notexist" then some .notexist
+  else if s = "corrupt" then some .corrupt else if s = "t" then some .t else if s = "f" then some .f
+  else if s = "d" then some .dir
+  else if s.startsWith "k[" && s.endsWith "]" then
+    let body := ((s.drop 2).dropRight 1).toString
+    if body = "" then some (.keys []) else
+    (body.splitOn ",").foldr (fun p acc => match decKey p, acc with
+      | some k, some l => some (.keys (k :: (match l with | .keys l => l | _ => [])))
+      | _, _ => none) (some (.keys []))
+  else if s.startsWith "v" then ((s.drop 1).toString.toNat?).map .val
+  else if s.startsWith "f" then ((s.drop 1).toString.toNat?).map .file
+  else none
+
+abbrev T := FS Nat Nat
+
+/-- the model: one operation on the POSIX tree -/
+def modelStep (t : T) : Op → Out × T
+  | .store k v => match fsStore t k v with
+    | (.ok _, t') => (.ok, t')
+    | (.notexist, t') => (.notexist, t')
+    | (.err, t') => (.err, t')
+  | .load k => (match fsLoad t k with | .ok v => .val v | .notexist => .notexist | .err => .err, t)
+  | .delete k => match fsDelete t k with
+    | (.ok _, t') => (.ok, t')
+    | (.notexist, t') => (.notexist, t')
+    | (.err, t') => (.err, t')
+  | .exists k => (if fsExists t k then .t else .f, t)
+  | .stat k => (match fsStat id t k with
+    | .ok (.file n) => .file n | .ok .dir => .dir | .notexist => .notexist | .err => .err, t)
+  | .list k r => (match fsList t k r with
+    | .ok l => .keys (canon l) | .notexist => .notexist | .err => .err, t)
+
+/-- is `x` a directory on disk with no stored key below it? (ghost state of the spec) -/
+def lingering (t : T) (x : K) : Bool := classify t x == .linger
+
+/-- The executable specification: what the `Storage` contract (CM.KV on `t.files`) says
+about the implementation's answer `o` to `op`. `none` = acceptable. The contract is
+definite for files, directories (prefixes of stored keys) and missing keys; for paths
+*through* a file (D11) and for empty directories left on disk it is silent. -/
+def judge (t : T) (op : Op) (o : Out) : Option String :=
+  match op with
+  | .store k _ =>
+    let c := classify t k
+    if o = .ok then none
+    else if c = .thru ∨ c = .dir ∨ c = .linger then none else some "store-failed"
+  | .load k =>
+    match classify t k, KV.load t.files k with
+    | .file, some v => if o = .val v then none else some "load-wrong-value"
+    | .missing, _ => if o = .notexist then none else some "load-missing-not-notexist"
+    | _, _ => match o with | .val _ => some "load-phantom-value" | .corrupt => some "load-phantom-value" | _ => none
+  | .delete k =>
+    if o = .ok ∨ o = .notexist then none
+    else if classify t k = .thru then none else some "delete-failed"
+  | .exists k =>
+    match classify t k with
+    | .file | .dir => if o = .t then none else some "exists-false-for-node"
+    | .missing => if o = .f then none else some "exists-true-for-missing"
+    | _ => none
+  | .stat k =>
+    match classify t k, KV.stat id t.files k with
+    | .file, some (.file n) => if o = .file n then none else some "stat-wrong-file-info"
+    | .dir, _ => if o = .dir then none else some "stat-wrong-dir-info"
+    | .missing, _ => if o = .notexist then none else some "stat-missing-not-notexist"
+    | .linger, _ => if o = .dir ∨ o = .notexist then none else some "stat-wrong-info"
+    | _, _ => none
+  | .list k r =>
+    let c := classify t k
+    if k = [] ∨ c = .dir then
+      match o, KV.list t.files k r with
+      | .keys l, some want =>
+        if want.any (fun x => !l.contains x) then some (if r then "list-recursive-missing-entry" else "list-missing-entry")
+        else if l.any (fun x => !want.contains x && !lingering t x) then
+          some (if r then "list-recursive-extra-entry" else "list-extra-entry")
+        else if !(k.isEmpty) && l.any (fun x => !(k.isPrefixOf x)) then some "list-outside-prefix"
+        else none
+      | _, _ => some "list-failed"
+    else if c = .missing then (if o = .notexist then none else some "list-missing-not-notexist")
+    else match o with
+      | .keys l => if l.any (fun x => !lingering t x) then some "list-phantom-entry" else none
+      | _ => none
+
+/-- the contract state after `op`, given what the implementation reported -/
+def specNext (t : T) (op : Op) (o : Out) : T :=
+  match op with
+  | .store k v =>
+    if thruFile t k then t
+    else
+      let t' : T := { t with dirs := addDirs t.dirs (parents k) }
+      if o = .ok then { t' with files := KV.store t.files k v, dirs := t'.dirs.filter (· ≠ k) } else t'
+  | .delete k =>
+    if o = .ok ∨ o = .notexist then
+      { files := KV.delete t.files k, dirs := t.dirs.filter (fun d => !k.isPrefixOf d) }
+    else t
+  | _ => t
+
+def clsTag (t : T) (op : Op) : String :=
+  let k := match op with
+    | .store k _ => k | .load k => k | .delete k => k | .exists k => k | .stat k => k | .list k _ => k
+  match classify t k with
+  | .file => "" | .dir => "d" | .thru => "T" | .linger => "L" | .missing => "m"
+
+structure Acc where
+  m : T := FS.empty
+  s : T := FS.empty
+  outs : List String := []
+  verdict : Option String := none
+  tags : List String := []
+
+def runKV (ops : List Op) (impl : List (Option Out)) : Acc :=
+  let rec go (ops : List Op) (impl : List (Option Out)) (a : Acc) : Acc :=
+    match ops with
+    | [] => a
+    | op :: rest =>
+      let (mo, m') := modelStep a.m op
+      let (io, irest) := match impl with
+        | o :: r => (o, r)
+        | [] => (none, [])
+      let tg := clsTag a.s op
+      let a' : Acc := match io with
+        | some o =>
+          let v := if a.verdict.isSome then a.verdict else
+            (judge a.s op o).map (fun r => r)
+          { m := m', s := specNext a.s op o, outs := encOut mo :: a.outs, verdict := v
+            tags := if a.tags.contains tg then a.tags else tg :: a.tags }
+        | none => { a with m := m', outs := encOut mo :: a.outs }
+      go rest irest a'
+  go ops impl {}
+
+def handle (args impl : List String) : String :=
+  match args with
+  | "kv" :: opToks =>
+    let ops := opToks.map decOp
+    if ops.any Option.isNone then bad else
+    let ops := ops.filterMap id
+    let io := impl.map decOut
+    if impl ≠ [] ∧ (io.any Option.isNone ∨ io.length ≠ ops.length) then bad else
+    let a := runKV ops io
+    let spec := if impl = [] then "-" else match a.verdict with
+      | none => "ok"
+      | some r => "bad:" ++ r
+    reply (String.intercalate " " a.outs.reverse) spec
+      (String.join (a.tags.mergeSort (fun x y => x ≤ y)))
+  | _ => bad
 
 end CM.Drv.C10
